@@ -23,12 +23,18 @@ CLAIMED = {
             "to the source spelling. Negative witness for KF1 and a non-vacuity example are kernel-checked.",
             NOTE_COMMON + "Lexer, head/tail, grammar actions, printing are hand-modelled (tables and regex trees are "
             "translated). Numeral re-spelling (render/normalize) is modelled; its arithmetic lemmas are not proved yet.", "5 C01"),
-    "C02": ("correspondence + per-node position oracle; Lean obligations shared with C01 (position theorem in progress)",
-            "All four clauses (slice = node text, widened slice, children nested/ordered/disjoint, root span) are evaluated on "
-            "every node of every accepted generated query on the implementation, and the model (which computes pos/size with "
-            "the same HeadTailManager arithmetic) must agree node by node. The Lean theorem Laid (positions) is not proved at "
-            "this commit: the machine-checked part is the C01 text invariant on which it rests.",
-            NOTE_COMMON + "Position arithmetic is covered by differential testing only at this commit.", "5 C02"),
+    "C02": ("Lean 4 proof: run invariant Laid (every stack value is positioned where its text sits) over the LR run, per-action "
+            "size/pos arithmetic, table fact from the kernel-checked certificate (right operand never of the class being built)" + T_CORR,
+            "Theorems: parse_laid_partial (for every accepted string without a blank before ':' (KF1), every node's pos is the "
+            "offset of its text and size the length of its text printed without head and tail, recursively for all "
+            "descendants), node_slices_partial (slice(pos,size) = node printed without head/tail; widened slice = printed "
+            "with them, numerals in source spelling), children_spans_partial (children's widened spans lie inside the "
+            "parent's span, in order, disjoint), root_span_partial (widened root span = whole input), lex_positions "
+            "(token positions, unconditional), run_laid (generic: arbitrary tables with a valid certificate). Negative "
+            "witness for KF1 ('foo :bar') and non-vacuity witnesses are kernel-checked. Correspondence and per-node oracle "
+            "as before.",
+            NOTE_COMMON + "HeadTailManager arithmetic is hand-modelled (Model/Parser.lean mgrPos/binaryOp); Item.span is modelled in "
+            "Lemmas/LaidPath.lean.", "5 C02"),
     "C03": ("Lean 4 proof: kernel-checked abstract-interpretation certificate of the generated LALR tables (every parse result is "
             "canonical w.r.t. precedence), lock-step simulation (layout independence), yield theorem; translator obligations "
             "(tables fresh, regex trees, reserved map) by decide + three-way differential (implementation / LR model / "
@@ -88,11 +94,17 @@ CLAIMED = {
             "the conjunction of the merged operands holds iff that of the original ones (any LE/LT structure); operands "
             "without bound side survive in order; without AND nodes merging changes nothing.",
             NOTE_COMMON, "5 C12"),
-    "C13": ("Lean 4 proof (aht eqv, layout, idempotence, failure characterisation)" + T_CORR,
+    "C13": ("Lean 4 proof (aht eqv, layout, idempotence, failure characterisation; round trip = re-lexing theory LX + parser "
+            "completeness C03c + print-and-reparse theorem)" + T_CORR,
             "Theorems: auto_head_tail returns an eqv tree, changes only empty heads/tails into '' or ' ', is idempotent, fails "
-            "exactly on operations without operands. The print/parse round trip (iv) is checked on the implementation for "
-            "all expressible generated trees (expressibility decided by the all-blanks spelling); KF8, KF9 recognised.",
-            NOTE_COMMON + "(iv) depends on lexer adjacency lemmas that are not proved: partial.", "5 C13"),
+            "exactly on operations without operands; aht_roundtrip_partial / aht_roundtrip_partial_layout: for every tree with "
+            "no (or only blank) layout that is expressible (canonical w.r.t. precedence, texts that lex as single tokens, "
+            "numerals that re-read to the same value: exactly the shapes the parser produces, expressible_of_parse / "
+            "expressible_parse) and safeAdj (excludes exactly KF8 name ending in Tdd before a value starting with dd, and "
+            "KF9 exclusive comparison before '='), auto_head_tail succeeds, its printed form is accepted by the parser and "
+            "parses to an eqv tree. Every glued adjacency auto_head_tail leaves is analysed in chain_spaced. KF8 / KF9 "
+            "refuted on witnesses by decide +kernel.",
+            NOTE_COMMON + "Non-mutation of the argument is checked on the implementation only.", "5 C13"),
     "C14": ('Lean 4 proof on an abstract machine (frame property under every schedule, unconditional thread_safe) + forced-schedule differential runs + free-running stress + access audit of the shared parser object',
             'Theorems: run_thread (after ANY schedule the state of a thread depends only on its own number of turns), thread_safe / thread_safe_parse (every schedule that lets a thread finish gives it exactly parse(input); fuel proved sufficient), outcome_is_sequential (under any schedule an outcome, once present, is the sequential one), shared_irrelevant. Harness: deterministic scheduler at every lexer step (plain and context-copied workers, caller parsed before), stress with 1 microsecond switch interval, audit of attribute reads/writes on the shared LRParser.',
             NOTE_COMMON + 'GIL / byte-code atomicity and PLY internals outside the audited accesses are not modelled: partial by nature.', "5 C14"),
